@@ -1,22 +1,7 @@
 #!/bin/bash
-# usage: tools/seed_regress.sh [filter]
-# For every seeded change kept under seeded/<id>/ : apply patch.diff to a scratch copy of /repo HEAD (outside /repo and
-# /verif), run the quick check of THE PROPERTY THE CHANGE WAS WRITTEN AGAINST, and require that it reports a VIOLATION
-# (exit 1). Prints one line per seed; exits 1 if any seed is not reported by its own property's check.
-set -u
-export GOFLAGS=-mod=mod GOPROXY=off GOSUMDB=off GOTOOLCHAIN=local; unset GOWORK
-fail=0
-for d in /verif/seeded/C*; do
-  id=$(basename "$d"); prop=${id%%-*}
-  [ -f "$d/patch.diff" ] || continue
-  echo "$id" | grep -qE "${1:-.}" || continue
-  s=$(mktemp -d /tmp/seedreg.XXXXXX)
-  git -C /repo archive HEAD | tar -x -C "$s"
-  if ! (cd "$s" && patch -p1 -s --no-backup-if-mismatch < "$d/patch.diff" >/dev/null 2>&1); then echo "SKIP   $id: patch does not apply to /repo HEAD"; rm -rf "$s"; continue; fi
-  if ! (cd "$s" && go build ./... >/dev/null 2>&1); then echo "SKIP   $id: does not build on /repo HEAD"; rm -rf "$s"; continue; fi
-  o=$(/verif/bin/raftlint -repo "$s" -no-evidence -property "$prop" -tier quick 2>&1); c=$?
-  rules=$(echo "$o" | grep -E "^  rule=" | sed -E 's/^  rule=([A-Z0-9-]+).*/\1/' | sort -u | paste -sd, )
-  if [ $c -eq 1 ]; then echo "CAUGHT $id by -property $prop: $rules"; else echo "MISSED $id by -property $prop (exit $c)"; fail=1; fi
-  rm -rf "$s"
-done
-exit $fail
+# usage: tools/seed_regress.sh [filter]  (env SEED_PAR, default 4)
+# For every seeded change kept under seeded/<id>/: the quick check of THE PROPERTY THE CHANGE WAS WRITTEN AGAINST must
+# report a VIOLATION that the unpatched commit does not have. One line per seed; exit 1 if any seed is missed.
+# See tools/seed_eval.py (the patch is applied to the newest /repo commit it applies to).
+ls -d /verif/seeded/C* | xargs -n1 basename | grep -E "${1:-.}" | xargs -P ${SEED_PAR:-4} -I{} python3 /verif/tools/seed_eval.py {} own | sort | tee /tmp/seed_regress.out
+! grep -q "^MISSED" /tmp/seed_regress.out
